@@ -100,6 +100,8 @@ def event_pairs(ce, be):
                 pairs.append((cv[1], bv[1], f"{ce[1]}.{pn}"))
         return None, pairs
     if k == "print":
+        ce = ("print", norm_print(ce[1]))
+        be = ("print", norm_print(be[1]))
         if len(ce[1]) != len(be[1]):
             return "print item count", []
         pairs = []
@@ -128,6 +130,22 @@ def event_pairs(ce, be):
     if k == "poke":
         return None, [(ce[1], be[1], "poke address"), (ce[2], be[2], "poke value")]
     return None, []
+
+
+def norm_print(items):
+    """juxtaposed items are separated by an implicit `;`; an empty string literal prints nothing (the tool emits `""` in
+    front of a leading or doubled separator because BASIC09's PRINT list cannot start with one)"""
+    out = []
+    for it in items:
+        if it[0] == "item":
+            if z3.is_string_value(it[1]) and it[1].as_string() == "":
+                continue
+            if out and out[-1][0] == "item":
+                out.append(("sep", ";"))
+            out.append(it)
+        else:
+            out.append(it)
+    return out
 
 
 def norm_pairs(pairs):
@@ -248,8 +266,9 @@ def compare_leaves(res, sem, cl, bl, counters, cm, bm, timeout_ms, st):
             res.findings.append(Finding("store-differs", f"{key}: kinds {cv[0]} vs {bv[0]}"))
             return
         pairs.append((cv[1], bv[1], "final value of " + key))
-    for key in sorted(set(cl.arrays) | set(bl.arrays)):
-        pairs.append((cm.array(cl, key), bm.array(bl, key), "final contents of " + key))
+    if cm.init_mode != "zero":
+        for key in sorted(set(cl.arrays) | set(bl.arrays)):
+            pairs.append((cm.array(cl, key), bm.array(bl, key), "final contents of " + key))
     todo = [(a, b, what) for a, b, what in pairs if not a.eq(b)]
     st.bump("obligations")
     res.counts["obligations"] += 1
